@@ -7,6 +7,7 @@ before DTSTART, never after UNTIL, never longer than COUNT.  Streams without zon
 stream model (Echse.Model.RrStrm: refill / pop), which is what the C16 theorems are about.
 """
 import collections
+import re
 import datetime as dt
 
 from . import common, p_strm, p_rr, p_rrfill, rfc5545, rrgen
@@ -136,13 +137,24 @@ def run(ctx):
     zidx = [i for i, c in enumerate(cases) if c[4]]
     zans, _, _ = ctx.impl(exe, ["r.strm %s | from=%s zone=%s n=1" % (one[0], p_rrfill.proto_hex(cases[i][0]), cases[i][4]) for i in zidx])
     own_start = {i: unhex16(a.split(",")[0])[:6] for i, a in zip(zidx, zans) if len(a.split(",")[0]) == 16}
+    # two fixed events at the end of a Hijri table's coverage: the calendar ends the stream there, not before
+    edge = [("BEGIN:VCALENDAR\nCALSCALE:HIJRI.DIYANET\nBEGIN:VEVENT\nUID:a\nSUMMARY:a\nDTSTART;VALUE=DATE:20221201\nRRULE:FREQ=DAILY;COUNT=40\nEND:VEVENT\nEND:VCALENDAR\n", 23,
+             "a daily rule printed in HIJRI.DIYANET from 2022-12-01 (the table ends 2022-12-23)"),
+            ("BEGIN:VCALENDAR\nBEGIN:VEVENT\nUID:b\nSUMMARY:b\nDTSTART;VALUE=DATE:20220802\nRRULE:FREQ=MONTHLY;SCALE=HIJRI.DIYANET;UNTIL=20221224\nEND:VEVENT\nEND:VCALENDAR\n", 5,
+             "a monthly HIJRI.DIYANET rule whose UNTIL lies a day behind the table's end")]
+    eout, _, _ = ctx.impl(exe, ["p.occ %s 60" % c.encode().hex() for c, _, _ in edge])
+    edge_fails = []
+    for k, (c, n_, what) in enumerate(edge):
+        got = len(re.findall(r"[0-9a-f]{16}\+\d+", eout[k] if k < len(eout) else ""))
+        if got != n_:
+            edge_fails.append(("p.occ", "%s: %d occurrences, the table covers %d" % (what, got, n_)))
     plain = [i for i, c in enumerate(cases) if not c[4] and "hijri" not in c[3]]
     mops = [ops[i].replace("n=%d" % npop, "n=400") for i in plain]
     mimpl, st2, err2 = ctx.impl(exe, mops, timeout=600)
     model = ctx.model(mops)
     corr = [d for d in common.diff_lines(mops, mimpl, model) if d[3] != "unmodelled"]
     unmodelled = sum(1 for m in model if m == "unmodelled")
-    fails = []
+    fails = list(edge_fails)
     known = collections.Counter()
     total, longest, refills = 0, 0, 0
     clsc = collections.Counter()
